@@ -12,7 +12,7 @@ use refchess::Pos;
 use serde_json::{json, Value};
 use std::cell::RefCell;
 
-pub const RULE: &str = "histories of 1..3 position commands sent to one engine through the real handle_command (hook verif_handle_command); each is 'startpos' or a six-field FEN written by the reference from a valid generated position with counters a real game can reach (halfmove 0..150, fullmove 1..6000 weighted to 1, two-digit, 200..300 and four-digit values), followed by 'moves' and a reference-legal playout of 0..250 plies in UCI notation (castling as king move, promotions with piece letter); whitespace varied as the protocol allows. Oracle: engine board (hook verif_board) after EVERY command == reference position after the playout (placement, side, rights, ep convention, bitboard consistency); no panic. Non-trivial = a FEN that is not the start position and/or a move list containing a castle, ep capture or promotion; distinct by command text.";
+pub const RULE: &str = "histories of 1..3 position commands sent to one engine through the real handle_command (hook verif_handle_command), with ucinewgame / isready lines between them in 30% of the steps, and 30% of the later commands being the previous command word for word or continued by 1..3 further moves (as a GUI restates a game); each is 'startpos' or a six-field FEN written by the reference from a valid generated position with counters a real game can reach (halfmove 0..150, fullmove 1..6000 weighted to 1, two-digit, 200..300 and four-digit values), followed by 'moves' and a reference-legal playout of 0..250 plies in UCI notation (castling as king move, promotions with piece letter); whitespace varied as the protocol allows. Oracle: engine board (hook verif_board) after EVERY command == reference position after the playout (placement, side, rights, ep convention, bitboard consistency); no panic. Non-trivial = a FEN that is not the start position and/or a move list containing a castle, ep capture or promotion; distinct by command text.";
 
 thread_local! {
     static ENGINE: RefCell<Option<Flounder>> = RefCell::new(None);
@@ -88,12 +88,58 @@ pub fn gen_position_cmd(s: &mut Src, max_plies: usize, small: bool) -> PosCmd {
     PosCmd { text, expected: last, history, nontrivial: !use_startpos && start != Pos::startpos() || special > 0, fullmove: full, special_moves: special }
 }
 
+/// The previous command again, word for word or continued by further legal moves (a GUI restates
+/// the whole game with every position command).
+fn extend_cmd(s: &mut Src, prev: &PosCmd) -> PosCmd {
+    let k = s.below(4);
+    let (steps, last) = gen::playout(s, &prev.expected, k);
+    let mut text = prev.text.trim_end().to_string();
+    let mut special = prev.special_moves;
+    let mut has_moves = text.split_whitespace().any(|t| t == "moves");
+    for (p, m) in &steps {
+        if !has_moves {
+            text.push_str(" moves");
+            has_moves = true;
+        }
+        text.push(' ');
+        text.push_str(&m.uci());
+        let i = p.info(*m);
+        if i.castle || i.ep || i.promo {
+            special += 1;
+        }
+    }
+    let mut history = prev.history.clone();
+    history.pop();
+    history.extend(steps.iter().map(|x| x.0.clone()));
+    history.push(last.clone());
+    PosCmd { text, expected: last, history, nontrivial: prev.nontrivial || special > 0, fullmove: prev.fullmove, special_moves: special }
+}
+
 fn check(bytes: &[u8], stats: &mut Stats) -> Verdict {
     let mut s = Src::new(bytes);
     let ncmds = 1 + s.below(3);
     let mut sent: Vec<String> = Vec::new();
+    let mut prev: Option<PosCmd> = None;
     for _ in 0..ncmds {
-        let c = gen_position_cmd(&mut s, 250, false);
+        // other commands between two position commands must not matter
+        let between = match s.below(10) {
+            0 | 1 => Some("ucinewgame"),
+            2 => Some("isready"),
+            _ => None,
+        };
+        let c = match &prev {
+            Some(pc) if s.chance(30) => {
+                stats.class("previous_command_repeated_or_continued");
+                if between == Some("ucinewgame") {
+                    stats.class("previous_command_repeated_or_continued_after_ucinewgame");
+                }
+                extend_cmd(&mut s, pc)
+            }
+            _ => gen_position_cmd(&mut s, 250, false),
+        };
+        if let Some(b) = between {
+            sent.push(b.to_string());
+        }
         sent.push(c.text.clone());
         let res = ENGINE.with(|e| {
             let mut e = e.borrow_mut();
@@ -102,6 +148,9 @@ fn check(bytes: &[u8], stats: &mut Stats) -> Verdict {
             }
             let fl = e.as_mut().unwrap();
             let r = std::panic::catch_unwind(std::panic::AssertUnwindSafe(|| {
+                if let Some(b) = between {
+                    fl.verif_handle_command(b);
+                }
                 fl.verif_handle_command(&c.text);
                 *fl.verif_board()
             }));
@@ -133,6 +182,7 @@ fn check(bytes: &[u8], stats: &mut Stats) -> Verdict {
         }
         stats.class(if c.text.contains("startpos") { "startpos" } else { "fen" });
         stats.sample(|| json!({"command": if c.text.len() > 400 { format!("{}…", &c.text[..400]) } else { c.text.clone() }, "result": c.expected.fen4()}));
+        prev = Some(c);
     }
     Ok(())
 }
